@@ -215,7 +215,8 @@ class TorchCalls(TorchOps):
             if isinstance(lst, ListV) and lst.items is not None:
                 return ListV(items=tuple(ListV(items=(Const(i), x), kind="tuple") for i, x in enumerate(lst.items)))
             if isinstance(lst, ListV):
-                idx = TV(kind="pyint", idx_of=lst.over, note="enumerate-index", origin=frozenset(["loop-index"]))
+                idx = TV(kind="pyint", idx_of=lst.over, note="enumerate-index", origin=frozenset(["loop-index"]),
+                         layout=(("enum", lst.order),) if lst.order is not None else ())
                 out = replace(lst, elem=ListV(items=(idx, lst.elem), kind="tuple"), head=None, tail=(), tail_elem=None)
                 pt = lst.parts()
                 ln = tv_of(lst.length) if lst.length is not None else None
